@@ -76,14 +76,6 @@ def evJ (tbl : List String) : Ev → J
   | .opRaised => J.arr [J.str "opRaised"]
   | .threadDied => J.arr [J.str "threadDied"]
 
-def runOps (P : Prog) (fuel : Nat) : List Op → M → List Nat → Except String (M × List Nat)
-  | [], m, marks => pure (m, marks)
-  | o :: os, m, marks =>
-    let m' := run P fuel (startOp o m)
-    match m'.stack with
-    | [] => runOps P fuel os m' (marks ++ [m'.core.log.length])
-    | _ :: _ => throw "out of fuel: an operation did not return"
-
 def handleM (j : J) : PM J := do
   let repaired ← liftE (j.boolean "repaired")
   let fuel ← liftE (j.nat "fuel")
@@ -111,7 +103,9 @@ def handleM (j : J) : PM J := do
     onDown := ← parseScript nb sinks j "onDown"
     repaired := repaired }
   let ops ← (← liftE (j.array "ops")).mapM (parseOp nb sinks)
-  let (m, marks) ← liftE (runOps P fuel ops {} [])
+  let (m, marks) ← match execMarks P fuel ops {} [] with
+    | some r => pure r
+    | none => throw "out of fuel: an operation did not return"
   let tbl ← get
   let nm (n : Nat) : String := tbl.getD n "?"
   let firedIds := m.core.log.filterMap fun | .fired id _ => some id | _ => none
